@@ -16,6 +16,8 @@ def gen(rng, tier):
     huge = rng.random() < 0.02
     if huge:
         n0 = rng.choice([9999, 10000, 10001, 12000])          # beyond the documented 10^4 limit of the 3MR heuristics
+        if tier == 'thorough' and rng.random() < 0.3:
+            n0 = rng.choice([100001, 120000])                 # very large combination spaces (interaction order 3 on ~90 features)
     names = [f'f{i}' for i in range(40)]
     def mk(n, prefix):
         out, seen = [], set()
